@@ -5,12 +5,12 @@
 set -u
 W=/tmp/confirm-wt
 git -C /repo worktree remove --force $W 2>/dev/null
-git -C /repo worktree add -q --detach $W HEAD || exit 3
+git -C /repo worktree add -q --detach $W ${BASE:-HEAD} || exit 3
 python3 /verif/tools/run_baseline.py $W/_build > $W/base.log 2>&1; echo "baseline suite: $(head -1 $W/base.log)"
 for seed in "$@"; do
   seed=$(realpath $seed); out=$seed/confirmed.txt; : > $out
   echo "== $seed" | tee -a $out
-  echo "repo commit: $(git -C /repo rev-parse --short HEAD)" >> $out
+  echo "repo commit: $(git -C $W rev-parse --short HEAD)" >> $out
   (cd $seed && SOFTHSM_SRC=$W bash ./run.sh $W/_build > $W/demo0.log 2>&1); d0=$?
   echo "demo on unchanged tree: exit $d0" | tee -a $out
   if ! git -C $W apply $seed/patch.diff 2>/dev/null && ! git -C $W apply -C1 $seed/patch.diff; then echo "PATCH DOES NOT APPLY" | tee -a $out; continue; fi
